@@ -499,14 +499,14 @@ def check(ctx):
     ctx.rule("R11.4", "pure evaluation uses the tensor functor with ob = dimension and ar = array")
     ctx.rule("R11.6", "rewire: the folded index arithmetic puts the gate's wires on the requested qubits")
     ctx.rule("R11.5", "kets, bras and bits are basis tensors of their bitstring; gate arrays have one axis per input/output qubit")
-    check_tables(ctx)
-    check_closed_forms(ctx)
-    check_rotation_dagger(ctx)
-    check_flag_readers(ctx)
-    check_scalar_daggers(ctx)
-    check_rotation_names(ctx)
-    check_eval_and_states(ctx)
-    check_rewire(ctx)
+    ctx.attempt(check_tables, ctx)
+    ctx.attempt(check_closed_forms, ctx)
+    ctx.attempt(check_rotation_dagger, ctx)
+    ctx.attempt(check_flag_readers, ctx)
+    ctx.attempt(check_scalar_daggers, ctx)
+    ctx.attempt(check_rotation_names, ctx)
+    ctx.attempt(check_eval_and_states, ctx)
+    ctx.attempt(check_rewire, ctx)
     ctx.rule("R11.7", "the pure evaluation is the tensor functor whose loop invariant and flag discipline are decided by C09; bras, kets and gates are daggered as C02 R02.4 requires")
     ctx.depend("R11.7", "C08", "the adjoint of an evaluated gate is the conjugate transpose of its matrix (Tensor.dagger exchanges the dom and cod blocks and conjugates)", rules={"R08.3"}, mod="discopy.tensor")
     ctx.depend("R11.7", "C10", "rewire conjugates the gate by Box.permutation, circuits are permuted with Circuit.swap / permutation: each realises the requested permutation", mod="discopy.monoidal")
